@@ -108,8 +108,9 @@ def run(prop, tier, seed, replay):
     from yaw.redshifts import HistData
 
     # (what travels to the workers by pickle is defined by the methods the classes have: Yaw.C17.class_methods)
-    ck = Check(prop, tier, seed, kernels=["k_schedule", "k_algebra", "k_wrappers", "k_glue"], theorems=THEOREMS + ["Yaw.C17.class_methods", "Yaw.C05.progress_wrapper_transparent", "Yaw.C05.progress_wrapper_flags", "Yaw.Glue.get_size_spec", "Yaw.Glue.num_processes_spec"],
-               lean_modules=["YawVerif.Props.C05", "YawVerif.Props.C17", "YawVerif.Props.Glue"], rule=RULE,
+    ck = Check(prop, tier, seed, kernels=["k_schedule", "k_algebra", "k_wrappers", "k_glue"], theorems=THEOREMS + ["Yaw.C17.class_methods", "Yaw.C05.progress_wrapper_transparent", "Yaw.C05.progress_wrapper_flags", "Yaw.Glue.get_size_spec", "Yaw.Glue.num_processes_spec",
+                                        "Yaw.C05Path.split_pathName", "Yaw.C05Path.id_of_path", "Yaw.C05Path.pathName_injective", "Yaw.C05Path.path_flags"],
+               lean_modules=["YawVerif.Props.C05", "YawVerif.Props.C17", "YawVerif.Props.Glue", "YawVerif.Props.C05Path"], rule=RULE,
                assumptions=["Pool.imap_unordered returns every result exactly once in SOME order (PARTIAL: the OS scheduler "
                             "is replaced by the controlled permutation; real pools are sampled)",
                             "worker results are transported by pickling"])
@@ -149,10 +150,27 @@ def run(prop, tier, seed, replay):
             os.environ.pop("YAW_NUM_THREADS", None)
         else:
             os.environ["YAW_NUM_THREADS"] = old_env
+    # ---- patch ids <-> directory names (what files arriving results under their patch) -------------------------------------------
+    from yaw.catalog.catalog import get_id_from_patch_path, get_patch_path_from_id
+    for k_ in (0, 1, 7, 10, 99, 100, 4095, 32767):
+        name_ = get_patch_path_from_id("/some/cache", k_).name
+        back_ = get_id_from_patch_path(f"/some/cache/{name_}")
+        ck.case(None, ("path", k_))
+        if back_ != k_:
+            ck.add_violation(f"patch {k_} is stored in directory '{name_}', which is read back as patch {back_}", {"patch_id": k_, "entry": "paths"})
+        greq.append(f"pn{len(greq)} pathname {k_}")
+        gexp.append(name_)
+    for bad_ in ("patch_1_0", "patch", "patch_x", "patch_", "other_3"):
+        try:
+            got_ = str(get_id_from_patch_path(f"/some/cache/{bad_}"))
+        except (ValueError, TypeError):
+            got_ = "raise"
+        greq.append(f"id{len(greq)} idof {bad_}")
+        gexp.append(got_)
     gans = ck.driver("GenGlue", greq)
     if gans is not None:
         for r_, e_, a_ in zip(greq, gexp, gans):
-            if int(a_) != e_:
+            if str(a_) != str(e_):
                 ck.add_tie_break("worker count vs generated kernel", {"request": r_, "impl": e_, "model": a_})
     n_cases = 4 if tier == "quick" else 30
     root = C.scratch_root()
